@@ -113,6 +113,7 @@ type c11Stmt struct {
 	WithFirst bool             // WITH (...) written before HAVING (the repository's own tests write both orders)
 	WinFirst  bool             // GROUP BY <window>, <column>: the list ends in a plain column
 	WithRev   bool             // the WITH options written in the reverse order (TIMEUNIT before TIMESTAMP)
+	WinForm   int              // window parameters: 0 as durations ('2s'), 1 as bare numbers of seconds (2), 2 as quoted numbers ('2')
 }
 
 func (s c11Stmt) parts() []string {
@@ -135,6 +136,12 @@ func (s c11Stmt) parts() []string {
 	if s.Window != "" {
 		w := map[string]string{"tumbling": "TumblingWindow('2s')", "sliding": "SlidingWindow('4s', '2s')", "counting": "CountingWindow(3)", "session": "SessionWindow('5s')",
 			"global": "GLOBAL WINDOW TRIGGER WHEN count(*) >= 2"}[s.Window]
+		switch s.WinForm {
+		case 1:
+			w = map[string]string{"tumbling": "TumblingWindow(2)", "sliding": "SlidingWindow(4, 2)", "counting": "CountingWindow('3')", "session": "SessionWindow(5)", "global": w}[s.Window]
+		case 2:
+			w = map[string]string{"tumbling": "TumblingWindow('2')", "sliding": "SlidingWindow('4s', 2)", "counting": "CountingWindow(3)", "session": "SessionWindow('5')", "global": w}[s.Window]
+		}
 		if s.WinFirst {
 			p = append(p, "GROUP", "BY", w+",", s.Group)
 		} else {
@@ -465,6 +472,16 @@ func c11Stmts(tier string) []c11Stmt {
 			v := out[i]
 			v.WinFirst = true
 			out = append(out, v)
+		}
+	}
+	// window parameters written as bare or quoted numbers of seconds
+	for i, n := 0, len(out); i < n; i++ {
+		if out[i].Window != "" && out[i].Window != "global" && i%5 == 0 {
+			for f := 1; f <= 2; f++ {
+				v := out[i]
+				v.WinForm = f
+				out = append(out, v)
+			}
 		}
 	}
 	// option order inside WITH (...): the options are a set
@@ -1087,7 +1104,7 @@ func c11RunMatches(a *acc) {
 
 func c11Shape(s c11Stmt) string {
 	hostile := strings.Contains(s.Where, "'LIMIT") || strings.Contains(s.Where, "'ORDER") || strings.Contains(s.Where, "WHERE b") || strings.Contains(s.Where, "'FROM") || strings.Contains(s.Where, "'GROUP")
-	return fmt.Sprintf("window=%s|having=%v|with=%d%s|order=%d|limit=%v|join=%v|keyword-in-literal=%v", s.Window, s.Having != "", s.With, map[bool]string{true: "-reversed"}[s.WithRev], len(s.Order), s.Limit > 0, s.Join != "", hostile)
+	return fmt.Sprintf("window=%s"+map[int]string{1: "-bare-numbers", 2: "-quoted-numbers"}[s.WinForm]+"|having=%v|with=%d%s|order=%d|limit=%v|join=%v|keyword-in-literal=%v", s.Window, s.Having != "", s.With, map[bool]string{true: "-reversed"}[s.WithRev], len(s.Order), s.Limit > 0, s.Join != "", hostile)
 }
 
 func (c11) Describe(tier string) fw.Description {
